@@ -15,8 +15,8 @@ From Clemens Require Import Rules.Abs Rules.Fide.
 From Clemens.C02Refine Require Import MakeRefines.
 From Clemens.C01Att Require Import FideFacts Final.
 From Clemens.C03Recon Require Import Recon.
-From WipNull Require Import NullRoot NullGo.
-From WipEngine Require Import EngBase.
+From Clemens.C04Null Require Import NullRoot NullGo.
+From Clemens.EngineE2E Require Import EngBase.
 Import ListNotations.
 Open Scope list_scope.
 
